@@ -584,6 +584,7 @@ def o10_12_manifest_bytes(mir, tier):
         shapes += [(bits, 1, [(2, 4)], [(3, 4), (6, 6)]) for bits in itertools.product((0, 1), repeat=4)]
     names = ('wal_file_number', 'prev_wal_file_number', 'curr_file_number', 'prev_sequence_number')
     for si, (opt_bits, nptr, dels, adds) in enumerate(shapes):
+        if len(res.violations) >= 3: break
         S, V, F = byte_summaries(mir); S = reader_summaries(S, V); S, G = writer_summaries(S, V, mir)
         P = S['$patterns']
         P[r'<VersionChangeManifest as Default>::default'] = lambda se, env, pc: lib.one(env, mir.mk_struct('VersionChangeManifest', wal_file_number=Enum('None'), prev_wal_file_number=Enum('None'), prev_sequence_number=Enum('None'), curr_file_number=Enum('None'),
@@ -644,6 +645,7 @@ def o10_12_manifest_bytes(mir, tier):
                     res.violations.append({'label': label, 'case': case, 'model': {str(d_): str(m[d_]) for d_ in m.decls()}, 'replay': ['manifest_codec']})
             ex.run_fn(dec, [list(raw)], dict(env), pc, decoded)
             for cut in range(len(raw)):
+                if len(res.violations) >= 3: break          # enough to report: a misaligned decoder forks over every symbolic byte it misreads
                 def cut_decoded(ret, env3, pc3, cut=cut):
                     if not (isinstance(ret, Enum) and ret.tag == 'Ok'): return
                     posts = [(l.replace('does not survive encode + decode', 'is altered when the record is cut short (a torn edit must fail or lose whole fields, never change values)'), p) for l, p in check_edit(ex, ret, env3, pc3, False)]
